@@ -4,6 +4,7 @@ import (
 	"fmt"
 	"go/token"
 	"go/types"
+	"golang.org/x/tools/go/callgraph"
 	"strings"
 
 	"golang.org/x/tools/go/ssa"
@@ -163,7 +164,16 @@ func (w *World) paramCtxEnv(fn *ssa.Function) Env {
 	// which the table holds this function
 	if n := w.CG.Nodes[fn]; n != nil {
 		seenSite := map[ssa.CallInstruction]bool{}
+		in := append([]*callgraph.Edge(nil), n.In...)
+		// a method expression kept as a value (`{typedListTag, (*Decoder).readTypedList}`) is
+		// called through a synthetic thunk with the method's own operands: the sites calling
+		// the thunk through a function value are call sites of fn
 		for _, e := range n.In {
+			if e.Caller.Func != nil && e.Caller.Func != fn && w.unthunk(e.Caller.Func) == fn {
+				in = append(in, e.Caller.In...)
+			}
+		}
+		for _, e := range in {
 			c, ok := e.Site.(*ssa.Call)
 			if !ok || c.Call.StaticCallee() != nil || c.Call.IsInvoke() || seenSite[c] || e.Caller.Func == nil || !w.inPkg(e.Caller.Func) {
 				continue
@@ -186,6 +196,22 @@ func (w *World) paramCtxEnv(fn *ssa.Function) Env {
 				}
 				if idxVal != nil && c.Call.Args[i] == idxVal {
 					s = s.Intersect(at)
+				} else if idxVal == nil && c.Call.Args[i] == w.tagSymbolOf(e.Caller.Func) {
+					// the function value comes out of a table the caller walks itself (first-match
+					// loop over `{accepts, read}` rows): the caller's dispatch map, explored tag by
+					// tag with the function values followed, says for which tags this call hands
+					// the tag to fn
+					if d := w.dispatchOf(e.Caller.Func, nil); d != nil {
+						var tags ISet
+						for t := 0; t < 256; t++ {
+							if d.callee[t] == fnName(fn) && d.handed[t] {
+								tags = append(tags, IV{bi(int64(t)), bi(int64(t))})
+							}
+						}
+						if tags = tags.norm(); !tags.Empty() {
+							s = s.Intersect(tags)
+						}
+					}
 				}
 				sets[i] = sets[i].Union(s)
 			}
